@@ -194,11 +194,26 @@ func runC18(c *Ctx) {
 	mon.DiscardStdLog()
 	nprog := c.Pick(5000, 100000)
 	var mu sync.Mutex
-	var evals, consoleBytes, calls, fn9, fn2, warnsSeen, unsupported, pageCross, secondRounds int64
+	var evals, consoleBytes, calls, fn9, fn2, warnsSeen, unsupported, pageCross, secondRounds, flakyRuns int64
 	distinct := mon.NewDistinct(1_000_000)
 	Parallel(nprog, func(pi int) {
 		r := mon.NewRng(mon.Hash(uint64(c.Seed), uint64(pi), 0xC18))
 		mem, io := tinycpm.New()
+		// other legal ways to get the bundled port device: a zero value configured through
+		// its setters, and a by-value copy of a constructed one (the original is then
+		// configured with a writer of its own that must stay silent)
+		var origOut, origWarn bytes.Buffer
+		var origIO *tinycpm.IO
+		switch pi % 16 {
+		case 5:
+			mem, io = tinycpm.NewMemory(), &tinycpm.IO{}
+		case 13:
+			origIO = tinycpm.NewIO()
+			origIO.SetStdout(&origOut)
+			origIO.SetWarnLogger(log.New(&origWarn, "[ORIG]", 0))
+			cp := *origIO
+			mem, io = tinycpm.NewMemory(), &cp
+		}
 		cpu := &z80.CPU{Memory: mem, IO: io}
 		if pi%4 >= 2 && c.R.Violations() == 0 {
 			directRunMu.Lock()
@@ -229,7 +244,13 @@ func runC18(c *Ctx) {
 				}
 			}
 			var out, warn bytes.Buffer
-			if pi%2 == 1 {
+			// a writer that refuses exactly one Write call (transient host error) and works
+			// again afterwards: what the program prints later must still be offered to it
+			var flaky *flakyWriter
+			if pi%16 == 9 && len(p.Expect) > 0 {
+				flaky = &flakyWriter{w: &out, failAt: 1 + r.Intn(len(p.Expect))}
+				io.SetStdout(flaky)
+			} else if pi%2 == 1 {
 				// a plain io.Writer (no WriteByte, no Flush): every console byte must have
 				// reached it by the time the run has ended
 				io.SetStdout(plainWriter{&out})
@@ -324,6 +345,18 @@ func runC18(c *Ctx) {
 				}
 			case p.EndsOK && (err != nil || !cpu.HALT || cpu.PC != 0xff03):
 				bad = fmt.Sprintf("after JP 0 the run must end halted at FF03: err=%v HALT=%v PC=%04X", err, cpu.HALT, cpu.PC)
+			case flaky != nil && flaky.failed:
+				// accepted = everything asked for, with or without the refused chunk (a retry is fine)
+				without := append(append([]byte(nil), p.Expect[:min(flaky.failPos, len(p.Expect))]...), p.Expect[min(flaky.failPos+len(flaky.refused), len(p.Expect)):]...)
+				if !bytes.Equal(out.Bytes(), p.Expect) && !bytes.Equal(out.Bytes(), without) {
+					bad = fmt.Sprintf("console output lost after one refused Write: call %d (%d byte(s)) was refused, the writer accepted %d bytes in all, want %d or %d", flaky.failAt, len(flaky.refused), out.Len(), len(p.Expect), len(without))
+				} else if nl < p.Warns {
+					bad = fmt.Sprintf("%d warning lines for %d non-console port accesses (only those warn, and each does)", nl, p.Warns)
+				} else {
+					mu.Lock()
+					flakyRuns++
+					mu.Unlock()
+				}
 			case !bytes.Equal(out.Bytes(), p.Expect):
 				bad = "console output differs"
 				if len(out.Bytes()) != len(p.Expect) {
@@ -381,6 +414,11 @@ func runC18(c *Ctx) {
 					cd = append(cd, fmt.Sprintf("fn=%d E=%02X addr=%04X len=%d port=%02X", cl.Fn, cl.E, cl.Addr, len(cl.Str), cl.Port))
 				}
 				c.R.Sample(map[string]interface{}{"program": pi, "round": round, "calls": cd, "console_bytes": out.Len(), "warnings": nl})
+			}
+			if origIO != nil && (origOut.Len() != 0 || origWarn.Len() != 0) {
+				c.R.Violation("C18/copy-writes-to-the-original", map[string]interface{}{
+					"what": "console bytes or warnings of a by-value copy of a tinycpm.IO (configured with its own SetStdout/SetWarnLogger) reached the writer/logger of the original", "program": pi,
+					"original_console": HexBytes(origOut.Bytes()[:min(origOut.Len(), 32)]), "original_warnings": origWarn.String()[:min(origWarn.Len(), 200)]})
 			}
 			if otherOut.Len() != 0 || otherWarn.Len() != 0 {
 				c.R.Violation("C18/another-machine-saw-the-traffic", map[string]interface{}{
@@ -461,6 +499,7 @@ func runC18(c *Ctx) {
 	c.R.Set("programs", evals)
 	c.R.Set("cmd_zexdoc_binary_runs", binRuns)
 	c.R.Set("second_programs_on_the_same_cpu_and_machine", secondRounds)
+	c.R.Set("runs_with_one_refused_console_write", flakyRuns)
 	c.R.Set("distinct_nontrivial", distinct.N())
 	c.R.Set("console_bytes", consoleBytes)
 	c.R.Set("bdos_calls", calls)
@@ -485,6 +524,32 @@ var directRunMu sync.Mutex
 type plainWriter struct{ w *bytes.Buffer }
 
 func (p plainWriter) Write(b []byte) (int, error) { return p.w.Write(b) }
+
+// flakyWriter refuses its failAt-th Write call (nothing accepted, an error returned)
+// and passes every other call on.
+type flakyWriter struct {
+	w       *bytes.Buffer
+	calls   int
+	failAt  int
+	failed  bool
+	failPos int    // bytes accepted before the refused call
+	refused []byte // what the refused call offered
+}
+
+type errTransient struct{}
+
+func (errTransient) Error() string { return "resource temporarily unavailable" }
+
+func (f *flakyWriter) Write(b []byte) (int, error) {
+	f.calls++
+	if f.calls == f.failAt {
+		f.failed = true
+		f.failPos = f.w.Len()
+		f.refused = append([]byte(nil), b...)
+		return 0, errTransient{}
+	}
+	return f.w.Write(b)
+}
 
 // stepBounded drives the CPU with Step under Run's stop rule (C08 shows the two
 // to be the same) with a Step budget.
